@@ -94,9 +94,16 @@ def splitPoints (loc : Bytes) : List Nat :=
   ((List.range (loc.length + 1)).reverse).filter
     (fun n => n < GETPW_USERLEN && (n == loc.length || loc.getD n 0 == breakByte))
 
+def Acct.isNo : Acct → Bool
+  | .no => true
+  | _ => false
+
+/-- a split point together with what the password file says about the user part before it -/
+def classify (db : PwDb) (loc : Bytes) (n : Nat) : Nat × Acct := (n, acct db (lower (loc.take n)))
+
+/-- the first split point (longest user part) whose user part is not simply "no such user" decides -/
 def specGetpw (db : PwDb) (loc : Bytes) : GpwRes :=
-  let cls := (splitPoints loc).map (fun n => (n, acct db (lower (loc.take n))))
-  match cls.find? (fun p => p.2 != Acct.no) with
+  match ((splitPoints loc).map (classify db loc)).find? (fun p => !p.2.isNo) with
   | some (n, .user pw) => .out (if n = loc.length then pwLine pw [] [] else pwLine pw [45] (loc.drop (n + 1)))
   | some (_, .sys) => .exit QLX_SYS
   | some (_, .nfs) => .exit QLX_NFS
